@@ -183,3 +183,19 @@ func (r *Rng) Pick3(lo, mid, hi int) int {
 		return r.Range(lo, hi)
 	}
 }
+
+// Flush writes everything recorded so far to disk (streams and stats.txt) without closing:
+// for drivers whose process may be killed by the code under test (C15).
+func (o *Out) Flush() {
+	for _, w := range []*bufio.Writer{o.ops, o.impl, o.l2} {
+		w.Flush()
+	}
+	f, err := os.Create(filepath.Join(o.dir, "stats.txt"))
+	if err != nil {
+		panic(err)
+	}
+	defer f.Close()
+	for k, v := range o.stats {
+		fmt.Fprintf(f, "%s=%d\n", k, v)
+	}
+}
